@@ -247,6 +247,12 @@ def specs(tier):
                 for mk in ("hdrlike", "tiny", "str1"):
                     for c, h in (("COPY", "raw"), ("LZMA2", "encoded"), ("X86+LZMA2", "encoded")):
                         out.append({"sessions": [(mk, c, h)], "target": target, "ref": r})
+        # the same contents appended onto py7zr's own packed headers: only the CRC py7zr puts on the packed header stands
+        # between such a torn image and acceptance (seeded change C14g stopped writing it)
+        for a in ("str1", "tree"):
+            for mk in ("hdrlike", "tiny"):
+                for c, h in (("COPY", "raw"), ("LZMA2", "encoded")):
+                    out.append({"sessions": [(a, "LZMA2", "encoded"), (mk, c, h)], "target": target})
         if tier != "quick":
             for a in ("str1", "tree"):
                 for b in ("str2", "dir", "zero"):
